@@ -46,6 +46,7 @@ func runC19(c *vkit.Collector, rng *vkit.Rng, budget int) {
 	runC19s2rect(c, rng, budget)
 	runC19cap(c, rng, budget)
 	runC19capSpecial(c, rng, budget)
+	runC19capNearPi(c, rng, budget)
 }
 
 func runC19r1(c *vkit.Collector, rng *vkit.Rng, budget int) {
